@@ -1,6 +1,9 @@
-(* C03 - Disorder values follow the definition.  Proofs in theories/Align/DisorderProofs.v. *)
-From Coq Require Import List Arith ZArith QArith Bool Permutation.
+(* C03 - Disorder values follow the definition.  Proofs in theories/Align/DisorderProofs.v.
+   The C03_src_* theorems at the end are re-proved on every run against genprops/KernelGen.v, the translation of the pair rule, the divisor and
+   the loop shape of _compute_alignment_disorders from the CURRENT dissimilarity.py (harness/gen_kernel.py). *)
+From Coq Require Import String List Arith ZArith QArith Bool Permutation Lia.
 From PGA Require Import Align.Tuples Align.Cover Align.Inst Align.Invar Align.InvarProofs Align.Disorder Align.DisorderProofs.
+From PGAprops Require Import KernelGen.
 Import ListNotations.
 Local Close Scope Q_scope.
 
@@ -41,3 +44,27 @@ Example C03_example :
   (ua_disorder_q 1 ex_c03 [0; 0; 1]%nat == 23 # 3)%Q /\ (ua_compute_faithful 1 ex_c03 [0; 0; 1]%nat == 23 # 2)%Q /\
   row_of_ntuple [1; 1; 1]%nat [(2, None); (0, Some 0); (1, Some 0)]%nat = [0; 0; 1]%nat.
 Proof. vm_compute. repeat split; reflexivity. Qed.
+
+(* ---------------------------------------------------------------------------------------------------------------------------------
+   Tie to the source (obligations a change of dissimilarity.py can break). *)
+(* the divisor of _compute_alignment_disorders IS C(n,2) *)
+Theorem C03_src_c2n n : c2n_disorders_src (Z.of_nat n) = Z.of_nat (c2n n).
+Proof.
+  unfold c2n_disorders_src, c2n. rewrite Nat2Z.inj_div, Nat2Z.inj_mul. destruct n as [|n]; [reflexivity|].
+  rewrite Nat2Z.inj_sub by lia. reflexivity.
+Qed.
+(* what a pair of slots adds - delta_empty when either category cell is -1 (the empty slot's row), the kernel value otherwise - IS pair_cost *)
+Theorem C03_src_pair_value I a b t ci cj :
+  (ci = (-1)%Z <-> nth a t 0 = size I a) -> (cj = (-1)%Z <-> nth b t 0 = size I b) ->
+  pair_value_src ci cj (dget I a b (nth a t 0) (nth b t 0)) (de I) = pair_cost I a b t.
+Proof.
+  intros Hi Hj. unfold pair_value_src, pair_cost. cbv zeta.
+  destruct (Z.eqb_spec ci (-1)) as [E1|E1]; destruct (Nat.eqb_spec (nth a t 0) (size I a)) as [F1|F1];
+    try (exfalso; tauto); cbn [orb]; try reflexivity;
+  destruct (Z.eqb_spec cj (-1)) as [E2|E2]; destruct (Nat.eqb_spec (nth b t 0) (size I b)) as [F2|F2];
+    try (exfalso; tauto); reflexivity.
+Qed.
+(* the pairs are j < i < n (pairs n), the result is divided by c2n *)
+Theorem C03_src_shape :
+  alignment_disorders_shape = [("pair_loop", "for i in range(nb_annotators): for j in range(i)"); ("after", "res /= c2n; return res")]%string.
+Proof. reflexivity. Qed.
